@@ -199,13 +199,16 @@ def r04_3(ctx):
                                                  and 'cell_children' in src(s.value) for s in body) for x in ast.walk(c.value)) or \
             'new_cells' in src(c.value)
         ctx.decide('R04.3', r.qual, 'cells added to active[%s+1] are the children of the refined cells' % lv, kids or None, c, src(c.value)[:80])
-        if not all(k in texts or any(a_ in texts for a_ in ()) for k in ()):
-            pass
-        texts_ok = True
-    else:
-        texts_ok = False
-    if all_sem and not all(k in texts for k in ('self.active[lv]-=cells', 'self.deactivated[lv]|=cells')):
-        # renamed locals: the semantic obligations above stand in for the textual table below
+        # the children handed back to the caller (new_cells[lv+1]) are the set that became active
+        nc = [s_ for s_ in body if isinstance(s_, ast.Assign) and src(s_.targets[0]).replace(' ', '') == 'new_cells[%s+1]' % lv]
+        if nc:
+            from sa import resolve as _resolve
+            v1 = src(_resolve.expand(nc[0].value, nc[0])).replace(' ', '')
+            v2 = src(_resolve.expand(c.value, c)).replace(' ', '')
+            ctx.decide('R04.3', r.qual, 'new_cells[%s+1] holds the children that become active' % lv,
+                       True if ('cell_children' in v1 and (v1 in v2 or 'new_cells[%s+1]' % lv in v2)) else None, nc[0], '%s / %s' % (v1[:60], v2[:60]))
+    if all_sem:
+        # the semantic obligations above stand in for the textual table below (which is kept for loops written differently)
         cc = ctx.prog.func(H + '.HMesh.cell_children')
         t = src(cc.node).replace(' ', '')
         ctx.decide('R04.3', cc.qual, 'children of cell c: product of range(2*ci, 2*(ci+1))', 'range(2*ci,2*(ci+1))' in t or None, cc.node, 'dyadic refinement: 2^d children')
@@ -456,9 +459,14 @@ def r04_6(ctx):
     for r in guards.returns_of(cn.node):
         if r.value is None or src(r.value) in ('set()',):
             continue
-        acts = [x for x in ast.walk(r.value) if isinstance(x, ast.Subscript) and src(x.value) == 'self.hmesh.active']
+        from sa import resolve as _resolve
+        rv = _resolve.expand(r.value, r)       # locals with a straight-line definition are read as their definitions
+        acts = [x for x in ast.walk(rv) if isinstance(x, ast.Subscript) and src(x.value) == 'self.hmesh.active']
         conds = ' and '.join(('' if p else 'not ') + t for (t, p, _n) in guards.path_conditions(r)) or 'always'
-        if not acts:
+        if not acts and any(isinstance(x, ast.Name) and x.id not in ('set', 'l', 'cells', 'truncate', 'self') for x in ast.walk(rv)):
+            ctx.undecided('R04.6', cn.qual, 'neighbourhood under (%s) is restricted to active cells' % conds, r,
+                          'the returned value is built from locals without a straight-line definition')
+        elif not acts:
             ctx.violated('R04.6', cn.qual, 'neighbourhood under (%s) is restricted to active cells' % conds, r,
                          '`%s` is not intersected with self.hmesh.active[l - disparity]: the marking hands HMesh.refine cells that are already '
                          'refined, whose children are then activated a second time' % src(r)[:90])
